@@ -28,9 +28,9 @@ MC_Leads == {
     [text |-> "0.05*w",  parse |-> "term",   coef |-> 1,  body |-> "0.05*w"],
     [text |-> "0.025*w", parse |-> "term",   coef |-> 1,  body |-> "0.025*w"] }
 
-MC_Bodies == {"x", "y", "x*y", "x/y", "y/x", "2"}
+MC_Bodies == {"x", "y", "x*y", "x/y", "y/x", "2", "3"}
 \* every accepted two-factor shape: name*name, name/name, number*name, number/name, name/number, name*number
-MC_BodiesAll == {"x", "y", "x*y", "y*x", "x/y", "y/x", "2", "2*x", "6/y", "x/2", "x*2",
+MC_BodiesAll == {"x", "y", "x*y", "y*x", "x/y", "y/x", "2", "3", "2*x", "6/y", "x/2", "x*2",
                  "1234567", "12345678", "100000.5"}     \* pure numbers with seven and more significant digits
 MC_JoinElems == {"x", "+x", "-x", " y ", "-x*y", "+a*(b+c)", "-(x-y)", "+ 2"}
 
